@@ -34,7 +34,7 @@ def cases(ctx):
     for i in range(60 if not thorough else 600):
         P = gen.random_pda(rng, nmax=2, tmax=3)
         if i % 3 == 2:       # state names with '_' (names of grammar variables are built from pairs of state names)
-            ren = {q: n for q, n in zip(P['Q'], ['p', 'p_p'])}
+            ren = {q: n for q, n in zip(P['Q'], ['p', 'p_p'] if i % 9 != 8 else ["p", "p'p"])}
             P = dict(P, Q=[ren[q] for q in P['Q']], q0=ren[P['q0']], F=[ren[q] for q in P['F']],
                      delta=[[ren[p], a, u, [[ren[q], v] for q, v in T]] for p, a, u, T in P['delta']])
         if not thorough or ctx.mine(i):
@@ -149,9 +149,13 @@ def judge(ctx, c, answers):
             LG = {w for w in words if oracles.cfg_accepts(rules, str(G.S), w)}
             LP = {w for w in ref if len(w) <= m}
             bad = LG != LP
+            apo = any("'" in q for q in c['P']['Q'])       # the variable naming scheme p'q is ambiguous for such names (recorded finding)
             if bad:
-                ctx.violation('pda_to_cfg-language', {'case': c, 'word': sorted(LG ^ LP, key=len)[0], 'rules': len(rules)})
-            if 'ok' not in la or len(la['ok']['R']) != len(rules) or len(set(la['ok']['V'])) != len(G.V):
+                ctx.violation('pda_to_cfg-language', {'case': c, 'word': sorted(LG ^ LP, key=len)[0], 'rules': len(rules)},
+                              finding_key='pda2cfg-variable-name-collision' if apo else None)
+            if apo:
+                ctx.count('apostrophe-names')
+            elif 'ok' not in la or len(la['ok']['R']) != len(rules) or len(set(la['ok']['V'])) != len(G.V):
                 ctx.violation('correspondence:pda_to_cfg', {'case': c, 'impl_rules': len(rules), 'model_rules': len(la.get('ok', {}).get('R', []))}, no_input=not bad)
             ctx.count('pda_to_cfg')
         # the variant for PDAs that already accept on empty stack: grammar = words accepted with the EMPTY stack
@@ -159,7 +163,9 @@ def judge(ctx, c, answers):
         got2 = call(PA.pda_to_cfg, P, True, limit=60)
         if enc.canon_pda(P, False) != before:
             ctx.violation('argument-mutated', {'case': c, 'op': 'pda_to_cfg(accepts_on_empty_stack=True)'})
-        if 'ok' in got2:
+        if any("'" in q for q in c['P']['Q']):
+            pass
+        elif 'ok' in got2:
             G2 = got2['ok']
             if 'ok' not in la2 or len(la2['ok']['R']) != len(G2.R) or len(set(la2['ok']['V'])) != len(G2.V):
                 ctx.violation('correspondence:pda_to_cfg(aes)', {'case': c, 'impl_rules': len(G2.R), 'model': str(la2)[:200]}, no_input=True)
